@@ -90,23 +90,17 @@ CHECKS["C03"] = {
 
 def _c07_jobs(tier):
     jobs = []
-    if tier == "quick":
-        for st in ("fifo", "lifo", "pool"):
-            # 2 threads x <=2 ops, bound 3; 3 threads x <=2 ops at bound 2 (ABA needs 3 threads, see DESIGN 3/C07)
-            for sh in range(2):
-                jobs.append(("c07_lin", ["--struct", st, "--threads", 2, "--maxops", 2, "--maxcap", 2, "--bound", 3,
-                                         "--prog-shard", "%d/2" % sh, "--deadline", 75]))
-            for sh in range(3):
-                jobs.append(("c07_lin", ["--struct", st, "--threads", 3, "--maxops", 2 if st != "pool" else 2, "--maxcap", 2, "--bound", 2,
-                                         "--prog-shard", "%d/3" % sh, "--deadline", 75]))
-    else:
-        for st in ("fifo", "lifo", "pool"):
-            for sh in range(2):
-                jobs.append(("c07_lin", ["--struct", st, "--threads", 2, "--maxops", 3, "--maxcap", 3, "--bound", 4,
-                                         "--prog-shard", "%d/2" % sh, "--deadline", 840]))
-            for sh in range(3):
-                jobs.append(("c07_lin", ["--struct", st, "--threads", 3, "--maxops", 2, "--maxcap", 3, "--bound", 3,
-                                         "--prog-shard", "%d/3" % sh, "--deadline", 840]))
+    q = tier == "quick"
+    dl = 75 if q else 840
+    for st in ("fifo", "lifo", "pool"):
+        # 2 threads: bound 3 (quick) / 4; 3 threads at bound 2 / 3 (ABA-type bugs need 3 threads, see DESIGN 3/C07)
+        n2, n3 = (3, 5) if q else (3, 5)
+        for sh in range(n2):
+            jobs.append(("c07_lin", ["--struct", st, "--threads", 2, "--maxops", 2 if q else 3, "--maxcap", 2 if q else 3, "--bound", 3 if q else 4,
+                                     "--prog-shard", "%d/%d" % (sh, n2), "--deadline", dl]))
+        for sh in range(n3):
+            jobs.append(("c07_lin", ["--struct", st, "--threads", 3, "--maxops", 2, "--maxcap", 2 if q else 3, "--bound", 2 if q else 3,
+                                     "--prog-shard", "%d/%d" % (sh, n3), "--deadline", dl]))
     return jobs
 
 CHECKS["C07"] = {
